@@ -355,7 +355,9 @@ class Interp(BuiltinsMixin, StmtMixin, DictMixin):
             return wrap(e)
         rec = self.uni.records.get(et)
         if rec:
-            return VTuple([self.mkval(f(e), t) for f, t in rec])
+            tup = VTuple([self.mkval(f(e), t) for f, t in rec])
+            tup.origin = e
+            return tup
         return self.mkref(e, et)
 
     def heap_closure(self, st):
@@ -399,6 +401,14 @@ class Interp(BuiltinsMixin, StmtMixin, DictMixin):
             return v.e
         if isinstance(v, VNone):
             return NULL
+        if isinstance(v, VTuple):
+            # a tuple read from a record-typed list keeps the element it was
+            # read from; other tuples need an encoder from the property module
+            if getattr(v, "origin", None) is not None:
+                return v.origin
+            enc = getattr(self.uni, "tuple_encoder", None)
+            if enc is not None:
+                return enc(self, v)
         raise Unsupported(f"no z3 value for {v}")
 
     def same(self, a, b):
